@@ -623,7 +623,25 @@ pub fn model_env(root: &Level, argv: &[Vec<u8>], env: &HashMap<String, Vec<u8>>)
 
     // evaluate from the innermost level outwards
     let mut sub: Option<V> = None;
+    let mut innermost = true;
     while let Some(run) = stack.pop() {
+        // `fallback_to_usage`: a level that got no item at all and whose parser fails prints
+        // its usage on stdout instead of the error
+        // (a lone `--` with nothing behind it leaves no item either)
+        let no_items = innermost
+            && right.map_or(true, |r| r.is_empty())
+            && run.occ.is_empty()
+            && run.words.is_empty()
+            && run.entered.is_none();
+        innermost = false;
+        if no_items && run.level.info.fallback_to_usage {
+            if eval_level(&run, None).is_err() {
+                return MOut::Help {
+                    path: path.clone(),
+                    exact: false,
+                };
+            }
+        }
         // `sub` belongs to the command entered at this level
         let subv = match (&run.entered, sub.take()) {
             (Some((ix, c)), Some(v)) => {
